@@ -107,6 +107,153 @@ def alloc_constants(path):
     return {"sizeLo": size_rng[0], "sizeHi": size_rng[1], "tries": tries, "lo": lohi[0], "hi": lohi[1]}
 
 
+# ---- _find_available_nameplate_id, statement by statement -------------------------------------------------
+
+def _lx(node, names):
+    """a Python integer expression over loop variables -> Lean Nat term"""
+    if isinstance(node, ast.Constant) and isinstance(node.value, int) and not isinstance(node.value, bool) and node.value >= 0:
+        return str(node.value)
+    if isinstance(node, ast.Name) and node.id in names:
+        return node.id
+    if isinstance(node, ast.BinOp):
+        ops = {ast.Add: "+", ast.Sub: "-", ast.Mult: "*", ast.Pow: "^"}
+        for k, v in ops.items():
+            if isinstance(node.op, k):
+                return "(%s %s %s)" % (_lx(node.left, names), v, _lx(node.right, names))
+    raise TranslateError("allocation: expression not understood: %s" % ast.dump(node)[:200])
+
+
+def _range(call, names):
+    """range(a, b) / range(n) -> Lean list term"""
+    if not (isinstance(call, ast.Call) and getattr(call.func, "id", None) == "range" and not call.keywords):
+        raise TranslateError("allocation: loop is not over range(...)")
+    if len(call.args) == 1:
+        return "(List.range %s)" % _lx(call.args[0], names)
+    if len(call.args) == 2:
+        a, b = _lx(call.args[0], names), _lx(call.args[1], names)
+        return "(List.range' %s (%s - %s))" % (a, b, a)
+    raise TranslateError("allocation: range with a step")
+
+
+def _is_fmt_d(node, var):
+    """`"%d" % var`"""
+    return (isinstance(node, ast.BinOp) and isinstance(node.op, ast.Mod) and isinstance(node.left, ast.Constant)
+            and node.left.value == "%d" and isinstance(node.right, ast.Name) and node.right.id == var)
+
+
+def _not_in(test, var, coll):
+    return (isinstance(test, ast.Compare) and len(test.ops) == 1 and isinstance(test.ops[0], ast.NotIn)
+            and isinstance(test.left, ast.Name) and test.left.id == var
+            and isinstance(test.comparators[0], ast.Name) and test.comparators[0].id == coll)
+
+
+def _assign(st, var=None):
+    if isinstance(st, ast.Assign) and len(st.targets) == 1 and isinstance(st.targets[0], ast.Name) \
+            and (var is None or st.targets[0].id == var):
+        return st.targets[0].id, st.value
+    return None, None
+
+
+def alloc_body(path):
+    """AppNamespace._find_available_nameplate_id -> Lean text of `genFindAvailable` (one Lean construct per statement).
+    `random.choice(list(S))` is `S[pick % |S|]` (S in generation order; `pick` arbitrary), the i-th `random.randrange(lo, hi)` is
+    `draws.getD i (lo + i)`, `"%d" % k` is `toString k`, `raise` is `none`, a `for` whose body may return is `findSome?`."""
+    tree = ast.parse(open(path).read(), path)
+    f = find_function(tree, "AppNamespace", "_find_available_nameplate_id")
+    body = [st for st in f.body if not (isinstance(st, ast.Expr) and isinstance(st.value, ast.Constant))]
+    if len(body) != 4:
+        raise TranslateError("allocation: %d top-level statements, expected 4" % len(body))
+    claimed, v = _assign(body[0])
+    if claimed is None or not (isinstance(v, ast.Call) and isinstance(v.func, ast.Attribute)
+                               and v.func.attr == "_get_nameplate_ids" and not v.args):
+        raise TranslateError("allocation: first statement is not `claimed = self._get_nameplate_ids()`")
+    # --- loop 1
+    l1 = body[1]
+    if not (isinstance(l1, ast.For) and isinstance(l1.target, ast.Name) and not l1.orelse and len(l1.body) == 3):
+        raise TranslateError("allocation: first loop has an unexpected shape")
+    size = l1.target.id
+    r1 = _range(l1.iter, set())
+    av, v = _assign(l1.body[0])
+    if av is None or not (isinstance(v, ast.Call) and getattr(v.func, "id", None) == "set" and not v.args):
+        raise TranslateError("allocation: `available = set()` expected")
+    inner = l1.body[1]
+    if not (isinstance(inner, ast.For) and isinstance(inner.target, ast.Name) and not inner.orelse and len(inner.body) == 2):
+        raise TranslateError("allocation: inner loop has an unexpected shape")
+    k = inner.target.id
+    r2 = _range(inner.iter, {size})
+    idv, v = _assign(inner.body[0])
+    if idv is None or not _is_fmt_d(v, k):
+        raise TranslateError("allocation: `id = \"%d\" % id_int` expected in the inner loop")
+    cond = inner.body[1]
+    if not (isinstance(cond, ast.If) and not cond.orelse and len(cond.body) == 1):
+        raise TranslateError("allocation: inner `if` has an unexpected shape")
+    add = cond.body[0]
+    if not (isinstance(add, ast.Expr) and isinstance(add.value, ast.Call) and isinstance(add.value.func, ast.Attribute)
+            and add.value.func.attr == "add" and getattr(add.value.func.value, "id", None) == av
+            and len(add.value.args) == 1 and getattr(add.value.args[0], "id", None) == idv):
+        raise TranslateError("allocation: `available.add(id)` expected")
+    if _not_in(cond.test, idv, claimed):
+        c1 = "¬ %s ∈ %s" % (idv, claimed)
+    elif isinstance(cond.test, ast.Compare) and len(cond.test.ops) == 1 and isinstance(cond.test.ops[0], ast.In) \
+            and getattr(cond.test.left, "id", None) == idv and getattr(cond.test.comparators[0], "id", None) == claimed:
+        c1 = "%s ∈ %s" % (idv, claimed)
+    else:
+        raise TranslateError("allocation: inner condition not understood")
+    ret = l1.body[2]
+    if not (isinstance(ret, ast.If) and not ret.orelse and len(ret.body) == 1 and getattr(ret.test, "id", None) == av
+            and isinstance(ret.body[0], ast.Return)):
+        raise TranslateError("allocation: `if available: return ...` expected")
+    rv = ret.body[0].value
+    if not (isinstance(rv, ast.Call) and isinstance(rv.func, ast.Attribute) and rv.func.attr == "choice"
+            and getattr(rv.func.value, "id", None) == "random" and len(rv.args) == 1
+            and isinstance(rv.args[0], ast.Call) and getattr(rv.args[0].func, "id", None) == "list"
+            and len(rv.args[0].args) == 1 and getattr(rv.args[0].args[0], "id", None) == av):
+        raise TranslateError("allocation: `random.choice(list(available))` expected")
+    # --- loop 2
+    l2 = body[2]
+    if not (isinstance(l2, ast.For) and isinstance(l2.target, ast.Name) and not l2.orelse and len(l2.body) == 3):
+        raise TranslateError("allocation: second loop has an unexpected shape")
+    tries = l2.target.id
+    r3 = _range(l2.iter, set())
+    k2, v = _assign(l2.body[0])
+    if k2 is None or not (isinstance(v, ast.Call) and isinstance(v.func, ast.Attribute) and v.func.attr == "randrange"
+                          and getattr(v.func.value, "id", None) == "random" and len(v.args) == 2 and not v.keywords):
+        raise TranslateError("allocation: `id_int = random.randrange(lo, hi)` expected")
+    lo = _lx(v.args[0], set())
+    id2, v = _assign(l2.body[1])
+    if id2 is None or not _is_fmt_d(v, k2):
+        raise TranslateError("allocation: `id = \"%d\" % id_int` expected in the second loop")
+    c2 = l2.body[2]
+    if not (isinstance(c2, ast.If) and not c2.orelse and len(c2.body) == 1 and isinstance(c2.body[0], ast.Return)
+            and getattr(c2.body[0].value, "id", None) == id2):
+        raise TranslateError("allocation: `if id not in claimed: return id` expected")
+    if _not_in(c2.test, id2, claimed):
+        c2t = "¬ %s ∈ %s" % (id2, claimed)
+    elif isinstance(c2.test, ast.Compare) and len(c2.test.ops) == 1 and isinstance(c2.test.ops[0], ast.In) \
+            and getattr(c2.test.left, "id", None) == id2 and getattr(c2.test.comparators[0], "id", None) == claimed:
+        c2t = "%s ∈ %s" % (id2, claimed)
+    else:
+        raise TranslateError("allocation: second condition not understood")
+    if not isinstance(body[3], ast.Raise):
+        raise TranslateError("allocation: the function does not end in `raise`")
+    L = []
+    L.append("def genFindAvailable (%s : List String) (pick : Nat) (draws : List Nat) : Option String :=" % claimed)
+    L.append("  (%s.findSome? (fun %s =>" % (r1, size))
+    L.append("    let %s : List String := %s.filterMap (fun %s =>" % (av, r2, k))
+    L.append("      let %s := toString %s" % (idv, k))
+    L.append("      if %s then some %s else none)" % (c1, idv))
+    L.append("    %s[pick %% %s.length]?)).or" % (av, av))
+    L.append("  ((%s.findSome? (fun %s =>" % (r3, tries))
+    L.append("    let %s := draws.getD %s (%s + %s)" % (k2, tries, lo, tries))
+    L.append("    let %s := toString %s" % (id2, k2))
+    L.append("    if %s then some %s else none)).or" % (c2t, id2))
+    L.append("  none)")
+    return "\n".join(L)
+
+ALLOC_BEGIN = "-- BEGIN genFindAvailable"
+ALLOC_END = "-- END genFindAvailable"
+
+
 def strip_sql_comments(text):
     out = []
     for line in text.splitlines():
@@ -169,6 +316,15 @@ def _previous_values():
     return vals
 
 
+def _previous_alloc_text():
+    if os.path.exists(OUT):
+        txt = open(OUT).read()
+        if ALLOC_BEGIN in txt and ALLOC_END in txt:
+            return txt.split(ALLOC_BEGIN + "\n", 1)[1].split("\n" + ALLOC_END, 1)[0]
+    return ("def genFindAvailable (claimed : List String) (pick : Nat) (draws : List Nat) : Option String :=\n"
+            "  none")
+
+
 def generate():
     """-> (text, info).  info["errors"] maps a section (tap / alloc / db / scripts) to the reason it
     could not be translated; for such a section the previous values are kept, so that the model
@@ -193,10 +349,12 @@ def generate():
         dbc = {"CHANNELDB_TARGET_VERSION": prev.get("channelTarget", 1), "USAGEDB_TARGET_VERSION": prev.get("usageTarget", 2)}
     try:
         alloc = alloc_constants(os.path.join(SRC, "server.py"))
+        alloc_text = alloc_body(os.path.join(SRC, "server.py"))
     except (TranslateError, OSError, SyntaxError) as e:
         errors["alloc"] = str(e)
         alloc = {"sizeLo": prev.get("allocSizeLo", 1), "sizeHi": prev.get("allocSizeHi", 4), "tries": prev.get("allocTries", 1000),
                  "lo": prev.get("allocLo", 1000), "hi": prev.get("allocHi", 1000000)}
+        alloc_text = _previous_alloc_text()
     sch = os.path.join(SRC, "db-schemas")
     scripts = {}
     try:
@@ -229,6 +387,10 @@ def generate():
     L.append("def allocTries : Nat := %d" % alloc["tries"])
     L.append("def allocLo : Nat := %d" % alloc["lo"])
     L.append("def allocHi : Nat := %d" % alloc["hi"])
+    L.append("/-- AppNamespace._find_available_nameplate_id, one construct per statement (see translate.alloc_body) -/")
+    L.append(ALLOC_BEGIN)
+    L.append(alloc_text)
+    L.append(ALLOC_END)
     L.append("def channelTarget : Nat := %d" % dbc["CHANNELDB_TARGET_VERSION"])
     L.append("def usageTarget : Nat := %d" % dbc["USAGEDB_TARGET_VERSION"])
     L.append("")
